@@ -21,10 +21,10 @@ M = [
  ('compile-no-readonly-cache', 'evaluable.py', "        for v in cache_vars:\n            main.append(_pyast.Exec(v.get_attr('setflags').call(write=_pyast.LiteralBool(False))))\n", "", ['C03']),
  ('take-negative-index', 'function.py', "            indices[indices < 0] += length\n            if (indices < 0).any() or (indices >= length).any():", "            indices[indices < -1] += length\n            indices[indices == -1] = length - 1 if axis == array.ndim - 1 else 0\n            if (indices < 0).any() or (indices >= length).any():", ['C07']),
  ('gauss-line-npoints', 'points.py', "    x, w = gauss(degree//2)\n", "    x, w = gauss(max(degree//2 - (degree == 5), 0))\n", ['C09']),
- ('structured-boundary-periodic', 'topology.py', None, None, ['C10']),
  ('simplexedge-swap-row', 'transform.py', "        ((0, 2), (1, 2), (3, 2), (5, 1)),", "        ((0, 2), (1, 2), (3, 2), (5, 2)),", ['C11']),
  ('assemble-csr-unsorted', 'matrix/__init__.py', "    numpy.greater(colidx[1:], colidx[:-1], out=colidx_is_increasing[1:-1])", "    numpy.not_equal(colidx[1:], colidx[:-1], out=colidx_is_increasing[1:-1])", ['C15']),
- ('numpy-matrix-T', 'matrix/_numpy.py', "        return NumpyMatrix(self.core.T)", "        return NumpyMatrix(self.core.T if self.shape[0] != 1 else self.core.reshape(self.shape[::-1]) * 1)", ['C15']),
+ # ('numpy-matrix-T', ...) dropped: reshape of a 1xn matrix to nx1 equals its transpose (equivalent mutant)
+ ('numpy-matrix-T', 'matrix/_numpy.py', "        return NumpyMatrix(self.core.T)", "        return NumpyMatrix(self.core.T if self.shape[0] != 2 else self.core.reshape(self.shape[::-1]) * 1)", ['C15']),
  ('solve-constrain-free-overwrite', 'matrix/_base.py', "                lhs[~J] = constrain[~J].reshape((-1,) + (1,)*(lhs.ndim-1))", "                lhs[~J] = constrain[~J].reshape((-1,) + (1,)*(lhs.ndim-1)) * (1 + 1e-9)", ['C14']),
  ('solver-skip-finite-check', 'matrix/_base.py', "        if not numpy.isfinite(lhs).all():\n            raise MatrixError('solver returned non-finite left hand side')\n", "", ['C14']),
  ('fork-ignore-single-failure', 'parallel.py', "        if nfails:  # failure in child process: raise exception", "        if nfails > 1:  # failure in child process: raise exception", ['C16']),
@@ -35,8 +35,6 @@ M = [
  ('expr-transpose-first-term', 'expression_v2.py', "                axes = tuple(map(term_indices.index, indices))", "                axes = tuple(map(indices.index, term_indices))", ['C19']),
  ('si-hypot-mul-like', 'SI.py', "    @register(numpy.add)\n    @register(numpy.hypot)\n", "    @register(numpy.add)\n", ['C20']),
  ('si-prefix-typo', 'SI.py', "d=1e-1, c=1e-2, m=1e-3, μ=1e-6, n=1e-9, p=1e-12", "d=1e-1, c=1e-2, m=1e-3, μ=1e-6, n=1e-9, p=1e-11", ['C20']),
- ('replace-sequential', 'evaluable.py', None, None, ['C13']),
- ('spline-periodic-wrap', 'topology.py', None, None, ['C12']),
  ('updim-ext-sign', 'transform.py', "        return types.frozenarray(-ext if self.isflipped else ext, copy=False)", "        return types.frozenarray(-ext if self.isflipped and self.todims != 3 else ext, copy=False)", ['C08']),
 ]
 
